@@ -37,6 +37,8 @@ def main():
     ap.add_argument("--tier", default=os.environ.get("VERIF_TIER", "quick"))
     ap.add_argument("--replay", default=None)
     args = ap.parse_args()
+    if args.replay:
+        args.replay = os.path.abspath(args.replay)
     pid = args.prop
     tier = args.tier if args.tier in ("quick", "thorough") else "quick"
     seed = int(os.environ.get("VERIF_SEED", "1") or "1")
